@@ -310,6 +310,8 @@ func genAuth(prop string) func(rng *simkit.Rand, tier string, idx int) *simkit.C
 		c.Cfg["authseed"] = int64(rng.Intn(1 << 30))
 		c.Cfg["tenants"] = int64(rng.Intn(3))
 		c.Cfg["yield_den"] = []int64{0, 64, 8}[rng.Intn(3)]
+		c.Cfg["stall_den"] = []int64{0, 0, 200}[rng.Intn(3)] // execution-time fault in a third of the runs
+		c.Cfg["stall_max_us"] = 500
 		kinds := []string{"proxy", "proxy", "tcp", "admin", "admin", "listen", "listen", "expiry"}
 		if prop == "C16" {
 			kinds = []string{"expiry", "expiry", "expiry-edge", "expiry-edge", "expiry-edge", "listen", "proxy"}
